@@ -102,7 +102,7 @@ def run(ctx):
             elif isinstance(n, ast.Call) and isinstance(n.func, ast.Attribute) and n.func.attr == r.drain.name and \
                     not any(isinstance(a, ast.Call) for a in ancestors(f, n)):
                 sites.append((f, n))
-    c.floor("R3", "consumer creation sites", len(sites), 2)
+    c.expect("R3", "consumer creation sites", len(sites), 2, r.start, "the asynchronous consumer (run loop task) is no longer created by start() on both the fresh and the restored path: sent events are queued and never processed")
     for f, n in sites:
         ok = f.qualname == r.start.qualname
         why = "consumer started only by start()"
@@ -169,7 +169,7 @@ def run(ctx):
         for x in own_nodes(f.node):
             if isinstance(x, ast.AugAssign) and isinstance(x.op, ast.Add) and isinstance(x.target, ast.Attribute) and x.target.attr == "_raise_depth":
                 incs.append((f, x))
-    c.floor("R7", "increments of the raise-chain counter", len(incs), 1)
+    c.expect("R7", "increments of the raise-chain counter", len(incs), 1, ra.deliver, "self-sends made during processing are no longer counted: a raise chain is never cut")
     for f, x in incs:
         atoms = guards_at(f, x)
         self_only = any((cp := compare_parts(a)) is not None and isinstance(cp[1], ast.Is) and pol and
